@@ -203,7 +203,62 @@ def check_resets(ctx: Ctx) -> None:
     ctx.floor("6.4-reset", 6)
     s = ctx.index.method(BS, "BaseMDASolver", "_execute")
     clears = [c for c in walk_body(s) if isinstance(c, ast.Call) and norm_stmt(c.func) == "self._sequence_transformer.clear"]
-    ctx.ob("6.4-reset", cname(BS, "BaseMDASolver", "_execute"), len(clears) == 1, "the solver base must clear the acceleration/relaxation history at the start of each run", node=(clears or [s])[0], stmt="sequence transformer cleared")
+    ok = len(clears) == 1
+    if ok:
+        cfg = cfg_of(s)
+        ok = cfg.escape_path(cfg.entry, {cfg.node_of(rules.enclosing_stmt(s, clears[0]))}) is None
+    ctx.ob("6.4-reset", cname(BS, "BaseMDASolver", "_execute"), ok, "the solver base must clear the acceleration/relaxation history at the start of every run, whatever the settings (a warm start keeps the couplings, not the residual history of the previous inputs)", node=(clears or [s])[0], stmt="sequence transformer cleared on every path")
+
+
+CST = "algos/sequence_transformer/composite/composite.py"
+CHN = "mda/mda_chain.py"
+
+
+def check_composition(ctx: Ctx) -> None:
+    """Relaxation after acceleration (and any composition): stage k transforms the output of stage k-1."""
+    f = ctx.index.method(CST, "CompositeSequenceTransformer", "compute_transformed_iterate")
+    con = cname(CST, "CompositeSequenceTransformer", "compute_transformed_iterate")
+    p_iter, p_res = [a.arg for a in f.args.args if a.arg != "self"][:2]
+    loops = [st for st in stmts_of(f) if isinstance(st, ast.For) and norm_stmt(st.iter) == "self._sequence_transformers"]
+    ok = len(loops) == 1 and isinstance(loops[0].target, ast.Name)
+    run_var = None
+    if ok:
+        t = loops[0].target.id
+        calls = [c for c in ast.walk(loops[0]) if isinstance(c, ast.Call) and isinstance(c.func, ast.Attribute) and c.func.attr == "compute_transformed_iterate" and dotted(c.func.value) == t]
+        ok = len(calls) == 1 and len(calls[0].args) == 2
+        if ok:
+            st = rules.enclosing_stmt(f, calls[0])
+            ok = isinstance(st, ast.Assign) and isinstance(st.targets[0], ast.Name) and st.value is calls[0]
+            if ok:
+                run_var = st.targets[0].id
+                a, b = calls[0].args
+                # the iterate given to the stage is the running one; its residual is taken w.r.t. x_n = iterate - residual
+                defs = {x.targets[0].id: x.value for x in stmts_of(f) if isinstance(x, ast.Assign) and isinstance(x.targets[0], ast.Name) and x not in list(ast.walk(loops[0]))}
+                def strip(e):
+                    while isinstance(e, ast.Call) and isinstance(e.func, ast.Attribute) and e.func.attr == "copy" and not e.args:
+                        e = e.func.value
+                    return e
+                ok = dotted(a) == run_var and isinstance(b, ast.BinOp) and isinstance(b.op, ast.Sub) and dotted(b.left) == run_var and isinstance(b.right, ast.Name)
+                if ok:
+                    base = strip(defs.get(b.right.id))
+                    ok = isinstance(base, ast.BinOp) and isinstance(base.op, ast.Sub) and dotted(base.left) == p_iter and dotted(base.right) == p_res
+                    init = strip(defs.get(run_var))
+                    ok = ok and dotted(init) == p_iter
+    ctx.ob("6.5-composition", con, bool(ok), "each transformer of the composition must receive the iterate produced by the previous one and the residual of THAT iterate with respect to x_n = iterate - residual; feeding the original residual makes relaxation combined with acceleration converge elsewhere or diverge", node=(loops or [f])[0], stmt="stage k gets (x_k, x_k - x_n)")
+    rets = [st for st in stmts_of(f) if isinstance(st, ast.Return)]
+    ctx.ob("6.5-composition", con, len(rets) == 1 and run_var is not None and dotted(rets[0].value) == run_var, "the composition returns the iterate of the last stage", node=(rets or [f])[0])
+    # the chain's own base settings (tolerance, iteration budget, ...) win over the inner settings model
+    g = ctx.index.method(CHN, "MDAChain", "__create_inner_mda_settings")
+    cong = cname(CHN, "MDAChain", "__create_inner_mda_settings")
+    merges = [st for st in stmts_of(g) if isinstance(st, ast.Assign) and isinstance(st.value, ast.BinOp) and isinstance(st.value.op, ast.BitOr)]
+    ok = len(merges) == 1
+    if ok:
+        right = merges[0].value.right
+        left = merges[0].value.left
+        ok = isinstance(right, ast.DictComp) and norm_stmt(right.generators[0].iter) == "self.settings" and "BaseMDASettings.model_fields" in norm_stmt(right) and "inner_mda_settings" in norm_stmt(left)
+        rets = [st for st in stmts_of(g) if isinstance(st, ast.Return)]
+        ok = ok and len(rets) == 1 and isinstance(rets[0].value, ast.Call) and any(k.arg is None and dotted(k.value) == dotted(merges[0].targets[0]) for k in rets[0].value.keywords)
+    ctx.ob("6.5-inner-settings", cong, bool(ok), "in `inner | chain` the right operand wins: the tolerance and iteration budget requested on the chain must override the defaults of the inner settings model, otherwise the inner MDAs stop early and the chain does not converge to the requested tolerance", node=(merges or [g])[0], stmt="chain base settings override the inner settings model")
 
 
 def _sub_sign(e: ast.AST, out_names: set[str], in_names: set[str]) -> int | None:
@@ -231,8 +286,13 @@ def check_identity_blocks(ctx: Ctx, prefix: str, want: int = -1) -> None:
         # applied to a copy
         tgt = dotted(c.args[0]) if last_attr(c) == "fill_diagonal" else dotted(c.func.value)
         src = dotted(val.left.func.value) if isinstance(val, ast.BinOp) and isinstance(val.left, ast.Call) else None
-        cp = [s for s in stmts_of(h) if isinstance(s, ast.Assign) and dotted(s.targets[0]) == tgt and isinstance(s.value, ast.Call) and last_attr(s.value) in ("copy", "deepcopy")]
-        ctx.ob(f"{prefix}-identity-copy", con_c, len(cp) == 1 and tgt != src, "the identity must be subtracted on a copy: the discipline's own Jacobian must not be modified (a second linearisation would subtract it again)", node=c, stmt=f"{last_attr(c)} on a copy")
+        # every definition of the target that reaches the in-place update is a copy
+        defs_ = [s for s in stmts_of(h) if isinstance(s, ast.Assign) and any(dotted(t) == tgt for t in s.targets) and cfg.has(s)]
+        here = cfg.node_of(rules.enclosing_stmt(h, c))
+        dn = {cfg.node_of(s): s for s in defs_}
+        reaching = [s for n_, s in dn.items() if cfg.path(n_, here, avoid=set(dn) - {n_}) is not None]
+        fresh = bool(reaching) and all(isinstance(s.value, ast.Call) and last_attr(s.value) in ("copy", "deepcopy") for s in reaching)
+        ctx.ob(f"{prefix}-identity-copy", con_c, fresh and tgt != src, "the identity must be subtracted on a copy: the discipline's own Jacobian must not be modified (a second linearisation would subtract it again)", node=c, stmt=f"{last_attr(c)} on a copy")
     ops = [c for c in walk_body(h) if isinstance(c, ast.Call) and last_attr(c) == "shift_identity"]
     ctx.ob(f"{prefix}-identity", con_c, len(ops) == 1, "operator Jacobians must be shifted by minus the identity", node=(ops or [h])[0], stmt="operator: shift_identity()")
     si = ctx.index.method(JOP, "JacobianOperator", "shift_identity")
@@ -350,11 +410,16 @@ def run(ctx: Ctx) -> None:
     check_loops(ctx)
     check_predicate(ctx)
     check_resets(ctx)
+    check_composition(ctx)
     check_newton_parity(ctx)
 
 
 # ---------------------------------------------------------------------------
 WITNESSES = [
+    {"name": "history-kept-on-warm-start", "file": BS, "old": "        super()._execute()\n        self._sequence_transformer.clear()", "new": "        super()._execute()\n        if not self.settings.warm_start:\n            self._sequence_transformer.clear()", "expect": "6.4"},
+    {"name": "composition-feeds-original-residual", "file": CST, "old": "                next_iterate, next_iterate - current_iterate\n", "new": "                next_iterate, residual\n", "expect": "6.5"},
+    {"name": "composition-restarts-from-input", "file": CST, "old": "                next_iterate, next_iterate - current_iterate\n", "new": "                iterate, iterate - current_iterate\n", "expect": "6.5"},
+    {"name": "inner-settings-override-chain", "file": CHN, "old": "        inner_settings = dict(self.settings.inner_mda_settings) | {\n            name: setting\n            for name, setting in self.settings\n            if name in BaseMDASettings.model_fields\n        }", "new": "        inner_settings = {\n            name: setting\n            for name, setting in self.settings\n            if name in BaseMDASettings.model_fields\n        } | dict(self.settings.inner_mda_settings)", "expect": "6.5"},
     {"name": "enum-member-without-branch", "file": BM, "old": "        NO_SCALING = auto()", "new": "        NO_SCALING = auto()\n        MAX_RESIDUAL_COMPONENT = auto()", "expect": "6.1"},
     {"name": "branch-removed", "file": BS, "old": "        elif scaling == ResidualScaling.N_COUPLING_VARIABLES:\n            if scaling_data is None:\n                scaling_data = residual.size**0.5\n            normed_residual = norm(residual) / scaling_data\n", "new": "", "expect": "6.1"},
     {"name": "gs-snapshot-alias", "file": GS, "old": "            local_data_before_execution = self.io.data.copy()", "new": "            local_data_before_execution = self.io.data", "expect": "6.2"},
